@@ -865,6 +865,48 @@ def gen_io():
             out.append("Definition IO_EXEC_PROPAGATES : bool := true.  (* Insert/Update/Delete::exec use ? on write_rows (%d of %d) *)" % (n_prop, n_exec))
         else:
             raise TranslateError("IO_EXEC_PROPAGATES: %d of %d write_rows calls recognised as propagated" % (n_prop, n_exec))
+    with attempt("IO_REMOVE_SIG_PROPAGATES"):
+        # remove_digital_signature removes up to two container entries: each removal's error must reach the caller
+        rs = flat(fn_body(pk, "pub fn remove_digital_signature(&mut self)", "package.rs"))
+        n_rm = len(re.findall(r"\.remove_stream\(", rs))
+        n_prop = len(re.findall(r"\.remove_stream\([^;]*?\)\s*\?\s*;", rs))
+        tail_ok = re.search(r"Ok\(\(\)\)\s*}\s*$", rs) is not None
+        if n_rm == 0:
+            raise TranslateError("IO_REMOVE_SIG_PROPAGATES: no remove_stream call in remove_digital_signature")
+        if n_rm == n_prop and tail_ok:
+            out.append("Definition IO_REMOVE_SIG_PROPAGATES : bool := true.  (* remove_digital_signature uses ? on each removal (%d of %d) *)" % (n_prop, n_rm))
+        elif re.search(r"let _ = [^;]*\.remove_stream\(|\.remove_stream\([^;]*\)\s*(?:\.ok\(\)|\.unwrap_or)|(?:result|res|r)\s*=\s*[^;]*\.remove_stream\(", rs):
+            out.append("Definition IO_REMOVE_SIG_PROPAGATES : bool := false.  (* the result of a removal is discarded or overwritten *)")
+        else:
+            raise TranslateError("IO_REMOVE_SIG_PROPAGATES: %d of %d removals recognised as propagated" % (n_prop, n_rm))
+    with attempt("SUMMARY_MUT_ARMS"):
+        # summary_info_mut marks the summary modified and arms the deferred save on EVERY call
+        sm = flat(fn_body(pk, "pub fn summary_info_mut(&mut self)", "package.rs"))
+        marks = re.search(r"self\.is_summary_info_modified\s*=\s*true\s*;", sm) is not None
+        arms = re.search(r"self\.set_finisher\(\)\s*;", sm) is not None
+        cond = re.search(r"\b(if|match|while)\b", sm) is not None
+        if marks and arms and not cond:
+            out.append("Definition SUMMARY_MUT_ARMS : bool := true.  (* summary_info_mut: modified flag and finisher set unconditionally *)")
+        elif cond and (marks or arms):
+            out.append("Definition SUMMARY_MUT_ARMS : bool := false.  (* summary_info_mut marks / arms only under a condition *)")
+        elif not marks or not arms:
+            raise TranslateError("SUMMARY_MUT_ARMS: shape of summary_info_mut not recognised")
+    with attempt("QUERY_WITH_CONJOINS"):
+        # Select / Update / Delete::with: a further restriction is AND-ed to the one already there
+        q = flat(qy)
+        bodies = [m.end() for m in re.finditer(r"pub fn with\(mut self, condition: Expr\)", q)]
+        if len(bodies) != 3:
+            raise TranslateError("QUERY_WITH_CONJOINS: %d with() methods found, 3 expected" % len(bodies))
+        good = 0
+        for b in bodies:
+            body = q[b:b + 400]
+            body = body[:body.index(" self }") + 7] if " self }" in body else body
+            if re.search(r"Some\(expr\.and\(condition\)\)", body) and re.search(r"Some\(condition\)", body):
+                good += 1
+        if good == 3:
+            out.append("Definition QUERY_WITH_CONJOINS : bool := true.  (* with(): Some(expr.and(condition)) / Some(condition), 3 of 3 *)")
+        else:
+            raise TranslateError("QUERY_WITH_CONJOINS: %d of 3 with() bodies recognised" % good)
     return "\n".join(out) + "\n"
 
 
